@@ -60,6 +60,8 @@ ACCS = {
     # returns None for some prefixes: None is a legitimate accumulator value, not "no state yet"
     'box_mut': (lambda a, i: (a.items.append(i), a)[1], True),
     'tbox_mut': (lambda a, i: (a[0].items.append(i), (a[0], a[1] + 1))[1], True),
+    # a tally in a defaultdict: the fold only works if every key's copy of the seed keeps its default_factory
+    'ddict_mut': (lambda a, i: (a.__setitem__(i % 3, a[i % 3] + 1), a)[1], True),
     'maybe_none': (lambda a, i: None if i % 3 == 2 else ((a if a is not None else (50, 50))[0] + i, (a if a is not None else (50, 50))[1] + 1), False),
 }
 SEEDS = {
@@ -70,6 +72,7 @@ SEEDS = {
     'arr_factory': (lambda: (lambda: array('q')), True), 'dict_value': (lambda: {}, False),
     'box_value': (lambda: progs.Box(), False), 'tbox_value': (lambda: (progs.Box(), 0), False),
     'nested_value': (lambda: ([], 0), False), 'nested_dict_value': (lambda: {'n': 0, 'seen': []}, False),
+    'ddict_value': (lambda: __import__('collections').defaultdict(int), False), 'odict_value': (lambda: __import__('collections').OrderedDict(), False),
 }
 TERMS = {
     None: None,
@@ -96,6 +99,7 @@ COMBOS = [
     ('box_mut', 'box_value', [None]),
     ('tbox_mut', 'tbox_value', [None]),
     ('nested_dict_mut', 'nested_dict_value', [None]),
+    ('ddict_mut', 'ddict_value', [None]),
 ]
 NAMED = [['count', False], ['count', True], ['sum', False], ['sum', True], ['mean', False], ['mean', True], ['min', False], ['min', True],
          ['max', False], ['max', True], ['variance', False], ['variance', True], ['to_list'], ['to_array', 'q'], ['batch', 2], ['batch', 3],
